@@ -86,7 +86,7 @@ class Prop(SeqProp):
                                 binops=True, probes=[(0, 4, 6), (0, 2, 6)], rerel=[("copy", 0, "partof"), ("inplace", 1, "includes")],
                                 label="relation changed after first use, on a copy and in place")]
 
-    def build_case(self, sets, binops=True, probes=(), label="", rerel=()):
+    def build_case(self, sets, binops=True, probes=(), label="", rerel=(), cmp_ops=True):
         ops, impl = [], []
         names = []
         for kind, name, rel, spans, form in sets:
@@ -99,7 +99,7 @@ class Prop(SeqProp):
                 for b in names:
                     for o in ("and", "or", "sub", "xor"):
                         ops.append(f"{o} {a} {b} {nxt}"); impl.append([o, a, b, nxt]); nxt += 1
-                    for o in ("le", "lt", "eq", "ne", "ge", "gt", "disjoint", "subset", "superset"):
+                    for o in ("le", "lt", "eq", "ne", "ge", "gt", "disjoint", "subset", "superset") if cmp_ops else ():
                         ops.append(f"{o} {a} {b}"); impl.append([o, a, b])
         for a, s, e in probes:
             ops.append(f"has {a} {s} {e}"); impl.append(["has", a, s, e])
@@ -120,7 +120,7 @@ class Prop(SeqProp):
                 for l, r in ((x, b), (b, x)):
                     for o in ("and", "or", "sub", "xor"):
                         ops.append(f"{o} {l} {r} {nxt}"); impl.append([o, l, r, nxt]); nxt += 1
-                    for o in ("le", "lt", "eq", "ne", "ge", "gt", "disjoint", "subset", "superset"):
+                    for o in ("le", "lt", "eq", "ne", "ge", "gt", "disjoint", "subset", "superset") if cmp_ops else ():
                         ops.append(f"{o} {l} {r}"); impl.append([o, l, r])
         return Case(ops, {"impl": impl}, label)
 
@@ -158,9 +158,16 @@ class Prop(SeqProp):
             if rng.random() < 0.45:
                 a = rng.randrange(nsets)
                 rerel.append((rng.choice(["copy", "inplace"]), a, rng.choice([r for r in RELS if r != sets[a][2]])))
-            c = self.build_case(sets, True, probes, rerel=rerel)
+            # operands that are instances of user subclasses of SpanSet (and of the class itself): operators only — comparing
+            # an instance of the class with an instance of a subclass recurses without end in the unchanged code (Python tries the
+            # reflected method of the subclass first; DESIGN.md §2, outside the property as stated)
+            sub = rng.random() < 0.2
+            c = self.build_case(sets, True, probes, rerel=rerel, cmp_ops=not sub)
             if rng.random() < 0.15:
                 c.meta["unhashable"] = True  # span bounds that compare like numbers but cannot be hashed
+            if sub:
+                c.meta["subclasses"] = True
+                c.meta["cls_shift"] = rng.randrange(3)
             yield c
 
     def run_impl(self, case):
@@ -169,6 +176,19 @@ class Prop(SeqProp):
                   "includes": ss.SpanSetIncludesEqRelation, "overlaps": ss.SpanSetOverlapsEqRelation}
         env = {}
         out = []
+
+        class SentenceSpans(ss.SpanSet):
+            """a user subclass that only adds a helper"""
+
+            def widest(self):
+                return max((e - s_ for s_, e in self), default=None)
+
+        class TokenSpans(ss.SpanSet):
+            pass
+
+        # which class a constructed set has: the library's own, a subclass, a sibling subclass
+        cls_of = lambda name: [ss.SpanSet, SentenceSpans, TokenSpans][(name + case.meta.get("cls_shift", 0)) % 3] \
+            if case.meta.get("subclasses") else ss.SpanSet
 
         uh = bool(case.meta.get("unhashable"))
         raw = lambda x: x.v if isinstance(x, UH) else x
@@ -184,19 +204,19 @@ class Prop(SeqProp):
                     _, name, rel, spans, form = st
                     vals = [(num(s, (i + form) % 3 == 0), num(e, (i + form) % 2 == 0)) for i, (s, e) in enumerate(spans)]
                     if o == "raw":
-                        S = ss.SpanSet([v[0] for v in vals], [v[1] for v in vals], force_no_dup_check=True,
-                                       eq_relation=relcls[rel]())
+                        S = cls_of(name)([v[0] for v in vals], [v[1] for v in vals], force_no_dup_check=True,
+                                         eq_relation=relcls[rel]())
                     elif form == 0:
                         starts, ends = [v[0] for v in vals], [v[1] for v in vals]
-                        S = ss.SpanSet(starts, ends, eq_relation=relcls[rel]())
+                        S = cls_of(name)(starts, ends, eq_relation=relcls[rel]())
                         # the caller goes on using its lists: the set built with the duplicate check keeps its own spans
                         starts.append(num(2 * 10 ** 6)); ends.append(num(2 * 10 ** 6 + 2))
                         if starts:
                             starts[0] = num(-2 * 10 ** 6); ends[0] = num(2 * 10 ** 6)
                     elif form == 1:
-                        S = ss.SpanSet(iter(vals), eq_relation=relcls[rel]())
+                        S = cls_of(name)(iter(vals), eq_relation=relcls[rel]())
                     else:
-                        S = ss.SpanSet(vals, eq_relation=relcls[rel]())
+                        S = cls_of(name)(vals, eq_relation=relcls[rel]())
                     env[name] = S
                     out.append("ok " + show(S))
                 elif o in ("and", "or", "sub", "xor"):
